@@ -10,6 +10,7 @@
 import Gzx.GoMV
 import Gzx.Proofs.GoMTie
 import Gzx.Model.RS
+import Gzx.Proofs.Poly
 namespace Gzx.K04bTie
 open Gzx Gzx.GoM Gzx.GoVal Gzx.RS
 
@@ -283,6 +284,225 @@ theorem iterL_map (f : Nat → Res Nat) (tailLen : Nat) : ∀ (l pre : List Nat)
       cases xs.mapM f with
       | error e => rfl
       | ok ms => simp [Except.map, pure, Except.pure]
+
+/-! ### checked failures of callees inside loop bodies / at function level -/
+
+/-- what a failing model call means for the enclosing Go function: a panic (or exhausted fuel) propagates, every other
+    fault is the checked-error exit `c` of the caller -/
+def failK {γ : Type} (c : γ) (lift : Fault → γ) : Fault → γ
+  | .panic w => lift (.panic w)
+  | .fuel => lift .fuel
+  | _ => c
+
+theorem tryC_expE {α β : Type} (d : α) (emb : β → α) (r : Res β) (kT kF : α × Bool → Ctl σ ρ) :
+    (tryC (expE d emb r) fun t => if t.2 = true then kT t else kF t) =
+      match r with
+      | .ok b => kF (emb b, false)
+      | .error e => failK (kT (d, true)) Ctl.panic e := by
+  cases r with
+  | ok b => rfl
+  | error e => cases e <;> rfl
+
+theorem tryR_expE {α β : Type} (d : α) (emb : β → α) (r : Res β) (kT kF : α × Bool → Res ρ) :
+    (tryR (expE d emb r) fun t => if t.2 = true then kT t else kF t) =
+      match r with
+      | .ok b => kF (emb b, false)
+      | .error e => failK (kT (d, true)) Except.error e := by
+  cases r with
+  | ok b => rfl
+  | error e => cases e <;> rfl
+
+/-- a model step with checked failures as the outcome of a loop body whose function returns `dflt` on a checked error -/
+def stepE (dflt : ρ) : Res τ → Ctl τ ρ
+  | .ok t => .next t
+  | .error e => failK (.ret dflt) Ctl.panic e
+
+@[simp] theorem stepE_ok (d : ρ) (t : τ) : stepE d (.ok t) = .next t := rfl
+
+theorem stepE_bind {β : Type} (d : ρ) (r : Res β) (k : β → Res τ) :
+    stepE d (r >>= k) = match r with | .ok b => stepE d (k b) | .error e => failK (.ret d) Ctl.panic e := by
+  cases r <;> rfl
+
+theorem mapS_failK (R : τ → σ) (c : ρ) (e : Fault) :
+    mapS R (failK (Ctl.ret c) Ctl.panic e : Ctl τ ρ) = failK (Ctl.ret c) Ctl.panic e := by
+  cases e <;> rfl
+
+/-- `for cond` loop, body = model step on related states, for states satisfying an invariant the step preserves -/
+theorem while_map_inv (R : τ → σ) (Inv : τ → Prop) (body : σ → Ctl σ ρ) (f : τ → Ctl τ ρ)
+    (hb : ∀ t, Inv t → body (R t) = mapS R (f t)) (hinv : ∀ t t', Inv t → f t = .next t' → Inv t') :
+    ∀ (n : Nat) (t : τ), Inv t → whileLoop body n (R t) = mapS R (whileLoop f n t) := by
+  intro n
+  induction n with
+  | zero => intro t _; rfl
+  | succ n ih =>
+    intro t ht
+    rw [whileLoop_succ, whileLoop_succ, hb t ht]
+    cases hf : f t with
+    | next t' => exact ih t' (hinv t t' ht hf)
+    | brk t' => rfl
+    | ret r => rfl
+    | panic f => rfl
+
+theorem while_map_inv' (R : τ → σ) (Inv : τ → Prop) (f : τ → Ctl τ ρ) (t : τ) {body : σ → Ctl σ ρ} {s : σ} {n : Nat}
+    (hs : s = R t) (ht : Inv t) (hinv : ∀ t t', Inv t → f t = .next t' → Inv t')
+    (hb : ∀ t, Inv t → body (R t) = mapS R (f t)) :
+    whileLoop body n s = mapS R (whileLoop f n t) := by
+  subst hs; exact while_map_inv R Inv body f hb hinv n t ht
+
+/-! ### polynomials stay non-empty -/
+
+theorem mkPoly_ne {cs v : List Nat} (h : mkPoly cs = .ok v) : v ≠ [] := by
+  unfold mkPoly at h
+  split at h
+  · cases h
+  · cases h; exact Proofs.Poly.normalize_ne_nil cs
+
+theorem addOrSubtract_ne {p q v : List Nat} (hp : p ≠ []) (hq : q ≠ []) (h : addOrSubtract p q = .ok v) : v ≠ [] := by
+  unfold addOrSubtract at h
+  split at h
+  · cases h; exact hq
+  · split at h
+    · cases h; exact hp
+    · exact mkPoly_ne h
+
+theorem buildMonomial_ne {d c : Nat} {v : List Nat} (h : buildMonomial d c = .ok v) : v ≠ [] := by
+  unfold buildMonomial at h
+  split at h
+  · cases h; simp
+  · exact mkPoly_ne h
+
+theorem multiplyByMonomial_ne {F : GF.GF} {p v : List Nat} {d c : Nat} (h : multiplyByMonomial F p d c = .ok v) : v ≠ [] := by
+  unfold multiplyByMonomial at h
+  split at h
+  · cases h; simp
+  · simp only [bind, Except.bind] at h
+    cases hm : p.mapM (fun x => F.mul x c) with
+    | error e => rw [hm] at h; cases h
+    | ok ms => rw [hm] at h; exact mkPoly_ne h
+
+theorem multiply_ne {F : GF.GF} {p q v : List Nat} (h : multiply F p q = .ok v) : v ≠ [] := by
+  unfold multiply at h
+  split at h
+  · cases h; simp
+  · simp only [bind, Except.bind] at h
+    cases hm : mulRaw F p q with
+    | error e => rw [hm] at h; cases h
+    | ok ms => rw [hm] at h; exact mkPoly_ne h
+
+theorem multiplyBy_ne {F : GF.GF} {p v : List Nat} {s : Nat} (hp : p ≠ []) (h : multiplyBy F p s = .ok v) : v ≠ [] := by
+  unfold multiplyBy at h
+  split at h
+  · cases h; simp
+  · split at h
+    · cases h; exact hp
+    · simp only [bind, Except.bind] at h
+      cases hm : p.mapM (fun x => F.mul x s) with
+      | error e => rw [hm] at h; cases h
+      | ok ms => rw [hm] at h; exact mkPoly_ne h
+
+/-! ### the division loop of `GenericGFPoly.Divide` on model states -/
+
+/-- embedding of a pair of polynomials -/
+def ints2 (t : Poly × Poly) : List Int × List Int := (ints t.1, ints t.2)
+
+/-- one round of `Divide`'s loop (state: quotient, remainder); `D` is what the Go function returns on a checked error -/
+def divStep (F : GF.GF) (other : Poly) (inv : Nat) (D : ρ) (st : Poly × Poly) : Ctl (Poly × Poly) ρ :=
+  if degree st.2 ≥ degree other && !isZero st.2 then
+    stepE D (do
+      let lead ← getCoefficient st.2 (degree st.2)
+      let scale ← F.mul lead inv
+      let term ← multiplyByMonomial F other (degree st.2 - degree other) scale
+      let iq ← buildMonomial (degree st.2 - degree other) scale
+      let q' ← addOrSubtract st.1 iq
+      let r' ← addOrSubtract st.2 term
+      pure (q', r'))
+  else .brk st
+
+/-- a round keeps both polynomials non-empty -/
+theorem divStep_inv {F : GF.GF} {other : Poly} {inv : Nat} {D : ρ} {t t' : Poly × Poly}
+    (ht : t.1 ≠ [] ∧ t.2 ≠ []) (h : divStep F other inv D t = .next t') : t'.1 ≠ [] ∧ t'.2 ≠ [] := by
+  unfold divStep at h
+  split at h
+  · simp only [bind, Except.bind] at h
+    cases h1 : getCoefficient t.2 (degree t.2) with
+    | error e => simp only [h1] at h; cases e <;> cases h
+    | ok lead' =>
+      simp only [h1] at h
+      cases h2 : GF.GF.mul F lead' inv with
+      | error e => simp only [h2] at h; cases e <;> cases h
+      | ok scale =>
+        simp only [h2] at h
+        cases h3 : multiplyByMonomial F other (degree t.2 - degree other) scale with
+        | error e => simp only [h3] at h; cases e <;> cases h
+        | ok term =>
+          simp only [h3] at h
+          cases h4 : buildMonomial (degree t.2 - degree other) scale with
+          | error e => simp only [h4] at h; cases e <;> cases h
+          | ok iq =>
+            simp only [h4] at h
+            cases h5 : addOrSubtract t.1 iq with
+            | error e => simp only [h5] at h; cases e <;> cases h
+            | ok q' =>
+              simp only [h5] at h
+              cases h6 : addOrSubtract t.2 term with
+              | error e => simp only [h6] at h; cases e <;> cases h
+              | ok r' =>
+                simp only [h6, pure, Except.pure, stepE_ok] at h
+                cases h
+                exact ⟨addOrSubtract_ne ht.1 (buildMonomial_ne h4) h5, addOrSubtract_ne ht.2 (multiplyByMonomial_ne h3) h6⟩
+  · cases h
+
+theorem divLoop_succ (F : GF.GF) (other : Poly) (inv : Nat) (m : Nat) (q r : Poly) :
+    divLoop F other inv (m + 1) q r =
+      if degree r ≥ degree other && !isZero r then
+        (do
+          let lead ← getCoefficient r (degree r)
+          let scale ← F.mul lead inv
+          let term ← multiplyByMonomial F other (degree r - degree other) scale
+          let iq ← buildMonomial (degree r - degree other) scale
+          let q' ← addOrSubtract q iq
+          let r' ← addOrSubtract r term
+          pure (q', r')) >>= fun t => divLoop F other inv m t.1 t.2
+      else .ok (q, r) := by
+  rw [divLoop]
+  split
+  · simp only [bind_assoc, pure_bind]
+  · rfl
+
+/-- the loop run on model states is the model's `divLoop` (whenever that does not run out of its own fuel) -/
+theorem divStep_run (F : GF.GF) (other : Poly) (inv : Nat) (D : ρ) : ∀ (m : Nat) (q r : Poly) (n : Nat), m ≤ n →
+    divLoop F other inv m q r ≠ .error .fuel →
+    whileLoop (divStep F other inv D) n (q, r) =
+      match divLoop F other inv m q r with
+      | .ok t => .brk t
+      | .error e => failK (.ret D) Ctl.panic e := by
+  intro m
+  induction m with
+  | zero => intro q r n _ h; exact absurd rfl h
+  | succ m ih =>
+    intro q r n hn hnf
+    obtain ⟨n, rfl⟩ : ∃ k, n = k + 1 := ⟨n - 1, by omega⟩
+    rw [whileLoop_succ]
+    rw [divLoop_succ] at hnf ⊢
+    unfold divStep
+    simp only []
+    by_cases hc : (decide (degree r ≥ degree other) && !isZero r) = true
+    · simp only [hc, if_true] at hnf ⊢
+      generalize (do
+          let lead ← getCoefficient r (degree r)
+          let scale ← F.mul lead inv
+          let term ← multiplyByMonomial F other (degree r - degree other) scale
+          let iq ← buildMonomial (degree r - degree other) scale
+          let q' ← addOrSubtract q iq
+          let r' ← addOrSubtract r term
+          pure (q', r') : Res (Poly × Poly)) = blk at hnf ⊢
+      cases blk with
+      | error e => cases e <;> first | rfl | exact absurd rfl hnf
+      | ok t =>
+        simp only [stepE_ok]
+        exact ih t.1 t.2 n (by omega) hnf
+    · simp only [hc, if_false]
+      rfl
 
 theorem while_map' (R : τ → σ) (f : τ → Ctl τ ρ) (t : τ) {body : σ → Ctl σ ρ} {s : σ} {n : Nat}
     (hs : s = R t) (hb : ∀ t, body (R t) = mapS R (f t)) :
